@@ -110,7 +110,12 @@ def harmful(w, is_reader, ok_ret=0):
             out.append('writes %s%s' % (name, sorted(r.writes)[:8]))
         if name == FC.PDU and (r.reads or r.unknown_read):
             out.append('reads PDU octets %s' % sorted(r.reads)[:8])
-    if is_reader and w.status == 'ok' and w.ret != ok_ret:
+    same = w.ret == ok_ret
+    if is_reader and w.status == 'ok' and not same and isinstance(w.ret, tuple) and 0 < len(w.ret) <= 64:
+        # a symbolic result (e.g. a select on the validity test) is the expected constant under this world's path condition?
+        with FC.with_world(w.decisions):
+            same = FC.compare_vec(w.ret, ok_ret & B.mask(len(w.ret)), len(w.ret))[0] == 'eq'
+    if is_reader and w.status == 'ok' and not same:
         out.append('returns %s' % (hex(w.ret) if isinstance(w.ret, int) else 'a value made of PDU bits'))
     return out
 
@@ -354,6 +359,6 @@ def run(ctx, tier, res, tag=''):
 
 
 def main(tier, seed):
-    from ..ctx import Ctx
+    from ..ctx import run_all_configs
     res = Result('C11', tier, 'proof', seed)
-    return run(Ctx('le'), tier, res)
+    return run_all_configs(run, tier, res)
